@@ -1178,6 +1178,71 @@ def part_capabilities(ctx, app):
                    lambda i: descr[i], shard=3, defs='\n'.join(defs))
 
 
+ROOT_HEADERS = [{'HTTP_HOST': 'example.org" onmouseover="alert(1)'}, {'HTTP_HOST': "example.org' onmouseover='alert(1)"},
+                {'HTTP_HOST': 'example.org"><script>alert(1)</script>'}, {'HTTP_X_FORWARDED_HOST': 'evil.example"><img src=x onerror=alert(1)>'},
+                {'HTTP_X_FORWARDED_PROTO': 'javascript:alert(1)//"><img src=x>'}, {'HTTP_X_FORWARDED_PROTO': 'https" x="'},
+                {'HTTP_X_FORWARDED_HOST': 'a, b"><b>', 'HTTP_X_FORWARDED_PROTO': 'https'}, {'HTTP_HOST': 'h</a><a href="//evil.example/'},
+                {'HTTP_HOST': '[::1]:8080'}, {'HTTP_HOST': 'h&amp;quot;&lt;'}, {'HTTP_HOST': 'h\xe4st" x="\xe9'},
+                {'HTTP_X_SCRIPT_NAME': '/pre"fix<b>'}, {'SCRIPT_NAME': '/pre"><b>fix'}, {'SCRIPT_NAME': "/pre' x='"},
+                {'HTTP_HOST': 'example.org"', 'SCRIPT_NAME': '/" onmouseover="alert(1)'}]
+HTML_PAGES = [('root', '/', ''), ('root', '', ''), ('demo.index', '/demo/', ''), ('demo.wms', '/demo/', 'wms_layer=cached&format=png&srs=EPSG%3A4326'),
+              ('demo.tms', '/demo/', 'tms_layer=cached&format=png&srs=EPSG%3A900913'),
+              ('demo.wmts', '/demo/', 'wmts_layer=cached&format=png&srs=EPSG%3A900913')]
+
+
+def html_structure(text):
+    """(lxml element structure: tags with their sorted attribute names, token kinds of the minimal tokenizer)"""
+    import lxml.html
+    doc = lxml.html.document_fromstring(text)
+    els = [(el.tag, tuple(sorted(el.attrib))) for el in doc.iter() if isinstance(el.tag, str)]
+    return els, [t[0] for t in py_tokenize(text)]
+
+
+def part_html_pages(ctx, app):
+    """Deterministic probe (independent of the seed): the HTML pages of the application (welcome page for path '' and '/', demo
+    pages) requested with Host / X-Forwarded-Host / X-Forwarded-Proto / script names that contain quote characters and markup
+    WITHOUT any marker.  Oracle: the element structure (lxml: tags and attribute names in document order; the minimal tokenizer:
+    number and kinds of tokens) is that of the page for a benign host - request-derived text creates no element, no attribute
+    and ends no tag (property: `fixed element structure with request-derived text appearing only as escaped character data`)."""
+    for name, path, qs in HTML_PAGES:
+        ref = call_app(app, path, qs, {'HTTP_HOST': 'benign.example'})
+        rep0 = {'service': name, 'PATH_INFO': path, 'QUERY_STRING': qs, 'headers': {'HTTP_HOST': 'benign.example'}}
+        if 'chunks' not in ref or not (ref.get('status') or '').startswith('200'):
+            ctx.fail('service=%s,no-page' % name.split('.')[0], 'no HTML page for %s: %r' % (name, ref.get('status') or ref.get('raised')), rep0)
+            continue
+        try:
+            ref_struct = html_structure(b''.join(ref['chunks']).decode('utf-8'))
+        except Exception as e:  # noqa
+            ctx.fail('service=%s,html-unparsable' % name.split('.')[0], 'the page for a benign host cannot be read: %r' % (e,), rep0)
+            continue
+        for hdr in ROOT_HEADERS:
+            hdr = dict((h, v.encode('utf-8').decode('latin-1')) for h, v in hdr.items())     # PEP 3333 header text
+            res = call_app(app, path, qs, hdr)
+            rep = {'service': name, 'PATH_INFO': path, 'QUERY_STRING': qs, 'headers': hdr, 'upstream': 'ok', 'status': res.get('status'),
+                   'body_head': repr(b''.join(res.get('chunks') or [])[:300]) if 'chunks' in res else None}
+            sig = 'service=%s,' % name.split('.')[0]
+            ctx.case(('htmlpage', name, path, tuple(sorted(hdr.items()))), True, {'part': 'htmlpage', 'page': name, 'PATH_INFO': path, 'headers': hdr})
+            ctx.count('htmlpage:' + name)
+            if 'chunks' not in res:
+                ctx.fail(sig + 'wsgi-raised', 'the WSGI application raised %s' % res.get('raised'), rep)
+                continue
+            if not (res.get('status') or '').startswith('200'):
+                ctx.fail(sig + 'html-status-depends-on-host', 'status %r instead of 200 for the headers %r' % (res.get('status'), hdr), rep)
+                continue
+            try:
+                struct = html_structure(b''.join(res['chunks']).decode('utf-8'))
+            except Exception as e:  # noqa
+                ctx.fail(sig + 'html-unparsable', 'the page cannot be read: %r' % (e,), rep)
+                continue
+            if struct[0] != ref_struct[0]:
+                extra = [e for e in struct[0] if e not in ref_struct[0]][:3]
+                ctx.fail(sig + 'html-injection', 'the element structure of the HTML page depends on request headers %r: elements / attributes '
+                         'that the page for a benign host does not have: %r' % (hdr, extra), rep)
+            elif struct[1] != ref_struct[1]:
+                ctx.fail(sig + 'html-injection', 'the token structure of the HTML page depends on request headers %r (%d tokens instead of %d)'
+                         % (hdr, len(struct[1]), len(ref_struct[1])), rep)
+
+
 def part_host(ctx):
     """Request.host / url_scheme / host_url against Escape.host / url_scheme / host_url on generated environs"""
     try:
@@ -1249,6 +1314,7 @@ def part_app(ctx, skeletons):
         return
     part_welcome(ctx, app)
     part_capabilities(ctx, app)
+    part_html_pages(ctx, app)
     bases = base_requests()
     appdocs = []
     stream = []
